@@ -19,7 +19,7 @@ import OsmoVerif.Lemmas.WorldFwd
 import OsmoVerif.Spec.TrxdLayout
 
 namespace OsmoVerif.Props.C18
-open OsmoVerif OsmoVerif.World OsmoVerif.Spec OsmoVerif.PyStr
+open OsmoVerif OsmoVerif.World OsmoVerif.Spec OsmoVerif.PyStr OsmoVerif.World.Examples
 
 /-- over ANY stream of (non-NOPE) bursts handed to an unmuted transceiver `k` with
 `burst_drop_amount = n ≥ 0` and `burst_drop_period = p ≥ 1`, the model suppresses exactly the
@@ -179,5 +179,59 @@ theorem rfmute_sets (w : World) (i : Nat) (t : Trx) (a : Str) (v : Int) (hi : w.
     parseCmd w i [lit "RFMUTE", a] =
       .ok (setTrx w i (fun t => { t with rfMuted := decide (v > 0) }), (0, [])) :=
   parse_rfmute w i t a v hi ha
+
+/-! ### non-vacuity (`World.Examples`): transceiver 4 (`msDrop`: version 0, not muted,
+`burst_drop_amount = 2`, `burst_drop_period = 2`) is handed five bursts in frames 51, 52, 54, 55, 56 -/
+
+/-- the plan: the first two even frames are dropped, the third even frame is forwarded again -/
+example : dropPlan 2 2 streamFns = [false, true, true, false, false] := by decide
+
+/-- the hypotheses of `drop_exact` / `drop_counter` hold for that stream -/
+example : world.trxs[4]? = some msDrop ∧ msDrop.rfMuted = false ∧ msDrop.dropAmount = (2 : Nat) ∧
+    msDrop.dropPeriod = 2 ∧ (∀ b ∈ stream, b.2.2.nopeInd = false) ∧
+    stream.map (fun b => b.2.2.fn) = streamFns.map some ∧
+    (handleStream 4 world stream).isOk = true := by
+  refine ⟨rfl, rfl, rfl, rfl, ?_, ?_, ?_⟩ <;> decide +kernel
+
+/-- and the model does what the theorems say: one datagram for frames 51, 55, 56, none for the
+two dropped bursts (version-0 link), counter at 0 afterwards -/
+example : (match handleStream 4 world stream with
+    | .ok (w', outs) => (outs.map List.length, (w'.trxs[4]?).map (·.dropAmount))
+    | .error _ => ([], none)) = ([1, 0, 0, 1, 1], some 0) := by decide +kernel
+
+/-- `drop_counter` applied to it -/
+example : ∃ w' outs, handleStream 4 world stream = .ok (w', outs) ∧
+    w'.trxs[4]? = some { msDrop with dropAmount := 0 } ∧ outs.length = 5 := by
+  obtain ⟨⟨w', outs⟩, h⟩ := exists_of_isOk (handleStream 4 world stream) (by decide +kernel)
+  obtain ⟨a, b⟩ := drop_counter world 4 msDrop 2 2 stream streamFns w' outs rfl rfl rfl rfl
+    (by decide) (by decide +kernel) (by decide +kernel) h
+  exact ⟨w', outs, h, a, b⟩
+
+/-- a muted receiver on a version-1 link (transceiver 5): `nope_per_drop` gives exactly the NOPE.ind -/
+example : ∃ w' dk, handleDataMsg world 5 0 (fwdInput bts (burst 52))
+      { Trxd.RxMsg.fresh with fn := some 52, tn := some 2, ver := 1,
+                              burst := some (nbBits.map softOf) } = .ok (w', dk) ∧
+    suppressed bts msMuted 52 = true ∧ dk = [dataDgram msMuted (nopeOctets 52 2)] := by
+  obtain ⟨⟨w', dk⟩, h⟩ := exists_of_isOk (handleDataMsg world 5 0 (fwdInput bts (burst 52))
+      { Trxd.RxMsg.fresh with fn := some 52, tn := some 2, ver := 1,
+                              burst := some (nbBits.map softOf) }) (by decide +kernel)
+  refine ⟨w', dk, h, by decide, ?_⟩
+  exact (nope_per_drop world 5 0 (burst 52) msMuted bts 52 2 nbBits _ w' dk rfl rfl (by decide)
+    rfl rfl rfl (by decide +kernel) (trans_burst _ _ nbBits rfl (by decide +kernel)) h (by decide)).2.1
+    rfl (by decide) (by decide) (by decide) (by decide)
+
+/-- argument strings for `bad_args`: "-3" and "0" are rejected, "3" / "4" accepted -/
+example : pyInt (lit "-3") = some (-3) ∧ pyInt (lit "0") = some 0 ∧ pyInt (lit "3") = some 3 ∧
+    pyInt (lit "4") = some 4 := by decide +kernel
+
+example : ctrlCmdHandler [lit "FAKE_DROP", lit "-3"] = .ok (none, some (-1)) ∧
+    ctrlCmdHandler [lit "FAKE_DROP", lit "3", lit "0"] = .ok (none, some (-1)) := by
+  have h1 : toInt (lit "-3") = .ok (-3) := by
+    unfold toInt; rw [show pyInt (lit "-3") = some (-3) by decide +kernel]
+  have h2 : toInt (lit "3") = .ok 3 := by
+    unfold toInt; rw [show pyInt (lit "3") = some 3 by decide +kernel]
+  have h3 : toInt (lit "0") = .ok 0 := by
+    unfold toInt; rw [show pyInt (lit "0") = some 0 by decide +kernel]
+  exact ⟨(bad_args _ _ _ _ h1 h3).1, (bad_args _ _ _ _ h2 h3).2⟩
 
 end OsmoVerif.Props.C18
